@@ -46,6 +46,9 @@ pub enum Op {
     MakeAtomic(usize),
     Snapshot(usize),
     CloneHandle(usize),
+    /// publish a (clone of a) map through a replaceable memory: the map published before loses
+    /// one owner
+    Replace { atomic: usize, map: usize },
     Drop(usize),
 }
 
@@ -328,6 +331,16 @@ impl World {
                 }
                 _ => return Ok(false),
             },
+            Op::Replace { atomic, map } => {
+                let m = match self.handles.get(*map) {
+                    Some(Handle::Map(m)) if m.num_regions() > 0 => m.clone(),
+                    _ => return Ok(false),
+                };
+                match self.handles.get(*atomic) {
+                    Some(Handle::Atomic(a)) => a.lock().map_err(|e| format!("{:?}", e))?.replace(m),
+                    _ => return Ok(false),
+                }
+            }
             Op::CloneHandle(i) => match self.handles.get(*i) {
                 Some(Handle::Atomic(a)) => {
                     let c = a.clone();
@@ -599,6 +612,9 @@ fn ops_for(w: &World, kinds: &[Kind]) -> Vec<Op> {
             Handle::Atomic(_) => {
                 v.push(Op::Snapshot(i));
                 v.push(Op::CloneHandle(i));
+                for &m in &maps {
+                    v.push(Op::Replace { atomic: i, map: m });
+                }
             }
             Handle::Snap(_) => v.push(Op::CloneHandle(i)),
             _ => {}
@@ -775,6 +791,95 @@ fn size_sweep(ctx: &Ctx, kinds: &[Kind], thorough: bool) {
     ctx.extra("size_sweep_sizes", json!(sizes));
 }
 
+/// Histories around a replaced map that are deeper than the breadth-first bound: a region that
+/// only the *retired* map (and a snapshot of it) still holds must go away with its last real
+/// owner, while the replaceable memory - now publishing a map without it - stays alive.
+fn replace_histories(ctx: &Ctx, kinds: &[Kind]) {
+    let mut runs = 0u64;
+    for &k in kinds {
+        if !k.owned() {
+            continue;
+        }
+        // handles: 0 R0, 1 R1, 2 map{R0,R1}, 3 map{R0} (after remove), 4 removed R1, 5 atomic(map 2), 6 snapshot
+        let prefix = vec![
+            Op::Create(k),
+            Op::Create(k),
+            Op::Build(vec![0, 1]),
+            Op::Remove { map: 2, slot: 1 },
+            Op::MakeAtomic(2),
+            Op::Snapshot(5),
+            Op::Replace { atomic: 5, map: 3 },
+        ];
+        // every order of dropping the four other owners of R1 (indices shift as handles go)
+        let owners = [1usize, 2, 4, 6];
+        let mut orders: Vec<Vec<usize>> = Vec::new();
+        for a in 0..4 {
+            for b in 0..4 {
+                for c in 0..4 {
+                    for d in 0..4 {
+                        let o = [a, b, c, d];
+                        let mut sorted = o;
+                        sorted.sort();
+                        if sorted == [0, 1, 2, 3] {
+                            orders.push(o.iter().map(|i| owners[*i]).collect());
+                        }
+                    }
+                }
+            }
+        }
+        for order in orders {
+            let mut hist = prefix.clone();
+            let mut live: Vec<usize> = (0..7).collect();
+            for o in &order {
+                let pos = live.iter().position(|x| x == o).unwrap();
+                hist.push(Op::Drop(pos));
+                live.remove(pos);
+            }
+            runs += 1;
+            ctx.case(true);
+            start_recording();
+            let mut w = World::new();
+            let describe = || ("C12/replace-history".to_string(), format!("{:?}", hist), json!({"history": format!("{:?}", hist)}));
+            let mut failed = false;
+            let r = crate::crash::guarded(ctx, &describe, || {
+                for op in hist.iter() {
+                    match w.apply(op) {
+                        Ok(true) => {}
+                        Ok(false) => {
+                            failed = true;
+                            break;
+                        }
+                        Err(e) => {
+                            ctx.fail("C12/operation-refused", &format!("{:?} in {:?}: {}", op, hist, e), json!({"history": format!("{:?}", hist)}));
+                            failed = true;
+                            break;
+                        }
+                    }
+                    if let Err((key, d)) = w.check() {
+                        ctx.fail(&format!("C12/{}", key), &format!("after {:?} of {:?}: {}", op, hist, d), json!({"history": format!("{:?}", hist)}));
+                        failed = true;
+                        break;
+                    }
+                }
+            });
+            if r.is_none() {
+                stop_recording();
+                continue;
+            }
+            if failed {
+                let _ = crate::crash::guarded(ctx, &describe, || w.finish());
+                continue;
+            }
+            if let Some(Err((key, d))) = crate::crash::guarded(ctx, &describe, || w.finish()) {
+                ctx.fail(&format!("C12/{}", key), &format!("after {:?} and dropping all handles: {}", hist, d), json!({"history": format!("{:?}", hist), "then": "drop all"}));
+            }
+        }
+    }
+    ctx.add_transitions(runs);
+    ctx.add_traces(runs);
+    ctx.extra("replace_histories", json!(runs));
+}
+
 /// Creations that fail half-way (deviation bound 1 on the environment: one mmap call fails, or
 /// one query of the backing file's length fails / reports a shrunken file): whoever asked owns
 /// nothing afterwards, so nothing the library mapped on the way may remain.
@@ -873,7 +978,7 @@ fn failed_creations(ctx: &Ctx) {
 
 pub fn run(tier: Tier, replay: Option<String>) -> i32 {
     let ctx = crate::new_ctx("C12", tier, "model_checking", &replay);
-    ctx.set_rule("E1: BFS over all histories up to the depth bound of {create region (owned anonymous / owned file-backed - through from_range, the builder with the hugetlbfs hint, or with the hint set afterwards, rotating with the slot - / external raw / external raw file-backed; Xen build: UNIX, grant in advance, foreign on the emulated devices), build a map from any subset of region handles, insert, remove (yields a removed-region handle), clone map, wrap in GuestMemoryAtomic, snapshot, clone handle, drop ANY live handle (every other drop happens while a caught panic unwinds)}; state = owner graph (which handle keeps which region alive), each frontier state is rebuilt by replaying its history on the real objects with mmap/munmap (and the grant ioctls) recorded through link-time interposition. After every step: a region with an owner has not been passed to munmap and is readable; a region whose last owner went away was munmap'ed exactly once with exactly its mapped length (grant: plus exactly one matching unmap ioctl); external mappings are never unmapped; at the end of every history all remaining handles are dropped and the same invariant is checked. Address-space accounting: the whole mapping log is replayed after every step; every page the library mapped while creating a region is attributed to it, all pages of a region with an owner must still be mapped, and none of the pages attributed to a region without owners may remain. Size sweep: the life cycle {create, build, clone, atomic, snapshot, optional remove} followed by the drop orders of the five owners for owned regions of 1 byte .. 32 MiB+1 (thorough: .. 1 GiB+1; page multiples and not, around the 2 MiB huge-page size), same invariants. Failed creations (std build): anonymous and file-backed regions and a two-region map created through four routes with exactly one mmap call failing, or one query of the file length failing or reporting an empty file: nothing the library mapped on the way may remain.");
+    ctx.set_rule("E1: BFS over all histories up to the depth bound of {create region (owned anonymous / owned file-backed - through from_range, the builder with the hugetlbfs hint, or with the hint set afterwards, rotating with the slot - / external raw / external raw file-backed; Xen build: UNIX, grant in advance, foreign on the emulated devices), build a map from any subset of region handles, insert, remove (yields a removed-region handle), clone map, wrap in GuestMemoryAtomic, snapshot, replace the published map, clone handle, drop ANY live handle (every other drop happens while a caught panic unwinds)}; state = owner graph (which handle keeps which region alive), each frontier state is rebuilt by replaying its history on the real objects with mmap/munmap (and the grant ioctls) recorded through link-time interposition. After every step: a region with an owner has not been passed to munmap and is readable; a region whose last owner went away was munmap'ed exactly once with exactly its mapped length (grant: plus exactly one matching unmap ioctl); external mappings are never unmapped; at the end of every history all remaining handles are dropped and the same invariant is checked. Address-space accounting: the whole mapping log is replayed after every step; every page the library mapped while creating a region is attributed to it, all pages of a region with an owner must still be mapped, and none of the pages attributed to a region without owners may remain. Size sweep: the life cycle {create, build, clone, atomic, snapshot, optional remove} followed by the drop orders of the five owners for owned regions of 1 byte .. 32 MiB+1 (thorough: .. 1 GiB+1; page multiples and not, around the 2 MiB huge-page size), same invariants. Replace histories: create two regions, build, remove, wrap, snapshot, replace the published map by the one without the second region, then drop its four other owners in all 24 orders while the replaceable memory stays alive. Failed creations (std build): anonymous and file-backed regions and a two-region map created through four routes with exactly one mmap call failing, or one query of the file length failing or reporting an empty file: nothing the library mapped on the way may remain.");
     ctx.assume("the 'programs' half of the property (accessors cannot outlive their parent) is decided by the compile-fail grid in tools/cfail.py and rests on Rust's borrow checker");
     if ctx.replay_of.is_some() {
         println!("replay: deterministic search; re-running it");
@@ -889,6 +994,7 @@ pub fn run(tier: Tier, replay: Option<String>) -> i32 {
     let kinds = [Kind::XenUnix, Kind::XenGrant, Kind::XenForeign];
     explore(&ctx, &kinds, if thorough { 8 } else { 6 }, if thorough { 7 } else { 5 });
     size_sweep(&ctx, &kinds, thorough);
+    replace_histories(&ctx, &kinds);
     #[cfg(not(feature = "xen"))]
     failed_creations(&ctx);
     ctx.set_exhaustive(true);
